@@ -291,8 +291,9 @@ fn test_parse_http_status() {
     );
 }
 
-fn parse_number(input: &str) -> u64 {
-    input.parse().expect("should be an unsigned integer")
+/// Parses an unsigned integer literal, if it fits the value type.
+fn parse_number(input: &str) -> Option<u64> {
+    input.parse().ok()
 }
 
 fn parse_quoted_string(input: &str) -> &str {
@@ -330,7 +331,14 @@ pub fn tokenize(loc: Locator, input: &str) -> (Option<TokenList<Token>>, Vec<Par
             Ok(kind) => {
                 let slice = &input[range.clone()];
                 let value = match kind {
-                    TokenKind::LiteralNumber => TokenValue::Number(parse_number(slice)),
+                    TokenKind::LiteralNumber => match parse_number(slice) {
+                        Some(number) => TokenValue::Number(number),
+                        None => {
+                            // The literal is out of range for the value type.
+                            errors.push(ParserError::new(Span::new(loc.clone(), range)));
+                            continue;
+                        }
+                    },
                     TokenKind::LiteralString => {
                         TokenValue::Symbol(list.register(parse_quoted_string(slice)))
                     }
